@@ -47,6 +47,8 @@ var deviations = []deviation{
 	{"deal-commitments-agree-only-at-the-addressee", "state_dkg_deals_await_confirmations"},
 	{"deal-is-the-self-confirmation-marker", "state_dkg_deals_await_confirmations"},
 	{"response-complaint", "state_dkg_responses_await_confirmations"},
+	// the same complaint, signed by its author (the deviating participant holds its long-term key): a well-formed complaint
+	{"response-complaint-signed", "state_dkg_responses_await_confirmations"},
 }
 
 // c11Scenario runs one key generation in which `dealer` deviates towards `victim`.
@@ -201,6 +203,22 @@ func (a *algRun) c11Scenario(outDir string, n, t, dealer, victim int, dev deviat
 		case "state_dkg_responses_await_confirmations":
 			var req requests.DKGProposalResponseConfirmationRequest
 			if json.Unmarshal(res.ResultMsgs[0].Data, &req) != nil {
+				return
+			}
+			if dev.name == "response-complaint-signed" {
+				var typed []*dkgPedersen.Response
+				if json.Unmarshal(req.Response, &typed) != nil || len(typed) == 0 || typed[0] == nil || typed[0].Response == nil {
+					return
+				}
+				typed[0].Response.Status = false
+				sig, err := schnorr.Sign(eciesSuite, nd.air.VerifSecKey(), typed[0].Response.Hash(eciesSuite))
+				if err != nil {
+					return
+				}
+				typed[0].Response.Signature = sig
+				applied = true
+				req.Response, _ = json.Marshal(typed)
+				res.ResultMsgs[0].Data, _ = json.Marshal(req)
 				return
 			}
 			var rs []map[string]interface{}
